@@ -15,7 +15,7 @@ import (
 
 // C11 — union yields the set union, each node exactly once.
 
-const ruleC11 = "rapid: documents over a hostile alphabet (element names a, a-1, a1, b-1-1, a-1-1; attribute names x, x-1; values 1, 1-1, -1; repeated names and values, text, comments; prefixes p/pq with locals qa/a) x context x A | B (| C) with operands axis paths of 1-2 steps or flat paths, or p/(s1, s2[, s3]); operands overlapping, identical, disjoint, empty, and themselves yielding duplicates. Oracle: the multiset of node IDs yielded by Select equals set(ref(A)) U set(ref(B)), every multiplicity 1. Non-trivial: both operands non-empty and they overlap partially or are disjoint (A\\B or B\\A non-empty); distinct by (document, context, expression)."
+const ruleC11 = "rapid: documents over a hostile alphabet (element names a, a-1, a1, b-1-1, a-1-1; attribute names x, x-1 and a, a-1 (the same as element names: an attribute and the first child element of one element share their sibling-index path); values 1, 1-1, -1; repeated names and values, text, comments; prefixes p/pq with locals qa/a) x context x A | B (| C) with operands axis paths of 1-2 steps or flat paths, or p/(s1, s2[, s3]); operands overlapping, identical, disjoint, empty, and themselves yielding duplicates. Oracle: the multiset of node IDs yielded by Select equals set(ref(A)) U set(ref(B)), every multiplicity 1. Non-trivial: both operands non-empty and they overlap partially or are disjoint (A\\B or B\\A non-empty); distinct by (document, context, expression)."
 
 var uC11 = harness.NewUnit("C11", "rapid-union", ruleC11)
 
@@ -124,7 +124,7 @@ func oracleC11(l *harness.Live) (c11Info, *harness.Failure) {
 }
 
 func c11Doc() xgen.DocOpts {
-	return xgen.DocOpts{MaxDepth: 4, MaxFan: 3, ElNames: []string{"a", "a-1", "a1", "b-1-1", "a-1-1"}, AtNames: []string{"x", "x-1"},
+	return xgen.DocOpts{MaxDepth: 4, MaxFan: 3, ElNames: []string{"a", "a-1", "a1", "b-1-1", "a-1-1"}, AtNames: []string{"x", "x-1", "a", "a-1"},
 		Texts: []string{"1", "1-1", "-1", "a"}, AtVals: []string{"1", "1-1", "-1", ""}, MaxAttrs: 2, PElem: 7,
 		NS: &xgen.NSOpts{Prefixes: []string{"", "", "", "p", "pq"}, URIs: []string{"", "u"}}}
 }
